@@ -195,7 +195,7 @@ func checkNumber(w *core.Worker, rr *core.Rand, s string) {
 		}
 	}
 	// --- URI port ---
-	for _, f := range []string{"sip:h:%s", "sip:u@h:%s", "sip:h:%s;p=1", "sip:h:%s?a=b", "sips:u:pw@[::1]:%s;lr", "sip:u@h:%s?x"} {
+	for _, f := range []string{"sip:h:%s", "sip:u@h:%s", "sip:h:%s;p=1", "sip:h:%s?a=b", "sips:u:pw@[::1]:%s;lr", "sip:u@h:%s?x", "sip:1:2@[2001:db8::1]:%s", "sip:7:65@h:%s", "sip:12@10.0.0.1:%s;x", "sip:[::1]:%s"} {
 		in := []byte(fmt.Sprintf(f, s))
 		var u sipsp.PsipURI
 		var e sipsp.ErrorURI
@@ -259,10 +259,10 @@ func checkNumber(w *core.Worker, rr *core.Rand, s string) {
 
 // RunC10 is the monitor for C10.
 func RunC10(r *core.Run) {
-	r.Rule = "case = one digit string (length 1..40) placed in every numeric position: CSeq, Content-Length, Expires, plain uint, contact expires (3 carriers), contact q (integer and decimal forms), URI port (6 carriers incl. the user:pass-ambiguous path), and a whole message (CSeq + Expires + contact expires), one-shot and with cuts inside the digits; oracle = math/big value of the digit string: success => reported number == value, reported text == digits, value within the documented range; out of range => rejected / saturated (contact expires) / unset and flagged (q); in-range values without excess digits must be accepted; non-trivial = every digit string (each is placed in ~60 parser runs); distinct by construction (the string set is duplicate free)"
+	r.Rule = "case = one digit string (length 1..40) placed in every numeric position: CSeq, Content-Length, Expires, plain uint, contact expires (3 carriers), contact q (integer and decimal forms), URI port (10 carriers incl. the user:pass-ambiguous path, numeric passwords and bracketed hosts; plus an exhaustive family where every accepted URI's PortNo must equal its Port text), and a whole message (CSeq + Expires + contact expires), one-shot and with cuts inside the digits; oracle = math/big value of the digit string: success => reported number == value, reported text == digits, value within the documented range; out of range => rejected / saturated (contact expires) / unset and flagged (q); in-range values without excess digits must be accepted; non-trivial = every digit string (each is placed in ~60 parser runs); distinct by construction (the string set is duplicate free)"
 	r.Assume = []string{"documented ranges: CSeq, Expires 2^32-1 (CSeq at most 10 digits); Content-Length <= 2^24 and at most 9 digits; port <= 65535; q in [0,1] with at most 3 decimals; contact expires saturates at 2^32-1"}
 	rr0 := core.NewRand(r.Seed, 0xC10)
-	nums := gen.NumStrings(rr0, int(r.Pick(3000, 400000)))
+	nums := gen.NumStrings(rr0, int(r.Pick(30000, 1500000)))
 	r.Extra["digit_strings"] = len(nums)
 	st := r.Stage("numbers-in-every-position", int64(len(nums)), func(w *core.Worker, idx int64) {
 		rr := core.NewRand(r.Seed, 0xC10, 1, uint64(idx))
@@ -293,6 +293,54 @@ func RunC10(r *core.Run) {
 	})
 	st.Exhaustive = true
 	st.Space = "all status codes 000..999"
+	// URI port: for EVERY accepted URI of an exhaustive family the reported number
+	// must be the decimal value of the reported port text (whatever else the URI holds:
+	// numeric passwords, bracketed hosts, ...)
+	for _, fam := range []struct {
+		alpha  string
+		lq, lt int
+	}{{":@[]1", 10, 11}, {":@[]19;a?", 7, 8}} {
+		L := fam.lq
+		if !r.Quick() {
+			L = fam.lt
+		}
+		es := NewEnum(fam.alpha, L)
+		st = r.Stage("uri-port-invariant/"+fam.alpha, es.Size()*2, func(w *core.Worker, idx int64) {
+			s := sc(w)
+			s.buf = append(s.buf[:0], []string{"sip:", "sips:"}[idx%2]...)
+			s.buf = es.appendStr(s.buf, idx/2)
+			var u sipsp.PsipURI
+			var e sipsp.ErrorURI
+			pan, _, _ := core.Guard(func() { e, _ = sipsp.ParseURI(s.buf, &u) })
+			w.Eval(1)
+			if pan || e != sipsp.NoURIErr || int(u.Port.Offs)+int(u.Port.Len) > len(s.buf) {
+				return
+			}
+			txt := u.Port.Get(s.buf)
+			want := uint64(0)
+			for _, c := range txt {
+				if c < '0' || c > '9' {
+					return // not a digit string: nothing to compare
+				}
+				if want <= 1<<40 {
+					want = want*10 + uint64(c-'0')
+				}
+			}
+			if len(txt) == 0 && u.PortNo == 0 {
+				return
+			}
+			w.Inc("ports_compared")
+			if uint64(u.PortNo) != want || want > 65535 {
+				in := append([]byte(nil), s.buf...)
+				w.Fail("port-number-vs-text", func() *core.Violation {
+					return core.V(fmt.Sprintf("ParseURI(%q) accepted with Port=%q but PortNo=%d", in, txt, u.PortNo), in, nil)
+				})
+			}
+			w.NontrivialEnum()
+		})
+		st.Exhaustive = true
+		st.Space = es.Desc() + " after sip: and sips:"
+	}
 	r.Require("C10 accepted CSeq values", r.Counter("cseq_accepted"), 500)
 	r.Require("C10 rejected out-of-range uint values", r.Counter("uint_rejected_out_of_range"), 500)
 	r.Require("C10 contact expires judged", r.Counter("contact_expires_seen"), 500)
